@@ -355,10 +355,10 @@ func TestVerifC14(t *testing.T) {
 		"Parse(Build(x)) (every 7th case through Write/Read on a temp file) compared with x on region name and bounds, sequence, feature count and order, and each feature's seqid, source, type, score, strand, phase, attributes, location: "+
 			lenText+"; "+featText+"; Meta set as Parse sets it (Name, RegionStart=1, RegionEnd=length; GffVersion \"\" or \"3\"); separate cases (classes prefixed region-not-sequence-length) with 1 <= RegionStart <= RegionEnd unrelated to the length; non-trivial = every case")
 	co := newVerifRun("C14", "io/gff.Parse/post/coordinates",
-		"one case per feature of every document of the other two clauses that Parse returned (documents on which Parse panics are counted there, not here): GetSequence() == sequence[start-1:end] for the file's 1-based inclusive start..end, computed from the generated description")
+		"one case per feature of every document of the other two clauses (including the independent writer's texts without a final newline, classes prefixed no-final-newline) that Parse returned (documents on which Parse panics are counted there, not here): GetSequence() == sequence[start-1:end] for the file's 1-based inclusive start..end, computed from the generated description")
 	iw := newVerifRun("C14", "io/gff.Parse/post/independent-writer",
 		"Parse on GFF3 text from an independent writer (##gff-version 3, ##sequence-region name 1 length, 9 tab-separated columns, attributes k=v joined by ';' in arbitrary key order, optional ### line, ##FASTA, >name, sequence lines of width 70, 60, 61, 35 or 10 with a short last line): "+
-			lenText+"; "+featText+"; non-trivial = every case")
+			lenText+"; "+featText+"; every document twice: with a newline after the last sequence line, and with the file ending right after the last sequence letter (classes prefixed no-final-newline; every 7th through Read on a temp file); non-trivial = every case")
 	rt.Sampled()
 	co.Sampled()
 	iw.Sampled()
@@ -417,6 +417,21 @@ func TestVerifC14(t *testing.T) {
 			c14Check(c14Runs{iw, co}, d, itext, how+", Read", "", func([]byte) poly.Sequence { return Read(p) })
 		} else {
 			c14Check(c14Runs{iw, co}, d, itext, how, "", Parse)
+		}
+
+		// the same text without a newline after the last sequence line (a writer
+		// need not terminate the last line of a file); classes prefixed no-final-newline
+		ntext := bytes.TrimSuffix(itext, []byte("\n"))
+		iw.Case(fmt.Sprintf("len=%d feats=%d idx=%d width=%d no-final-newline", l, nFeat, idx, width), true)
+		how += ", no newline after the last sequence line"
+		if idx%7 == 6 {
+			p := filepath.Join(dir, "iwn-"+strconv.Itoa(idx)+".gff")
+			if err := ioutil.WriteFile(p, ntext, 0644); err != nil {
+				t.Fatal(err)
+			}
+			c14Check(c14Runs{iw, co}, d, ntext, how+", Read", "no-final-newline", func([]byte) poly.Sequence { return Read(p) })
+		} else {
+			c14Check(c14Runs{iw, co}, d, ntext, how, "no-final-newline", Parse)
 		}
 	}
 	rt.Done()
